@@ -402,18 +402,22 @@ Theorem C12_gen_open_A : forall amode comm fname info fileptr szof mret size_out
 Proof. exact gen_open_A. Qed.
 Print Assumptions C12_gen_open_A.
 
-(* sc_io_open with MPI I/O: MPI_File_open with the parsed amode; MPI_File_set_size (0) exactly when the open succeeded and amode is SC_IO_WRITE_CREATE; the class returned; the handle left behind *)
-Theorem C12_gen_open_B : forall ecl amode comm fname info fileptr fh o_ret ec_ret s_ret ec2_ret,
+(* sc_io_open with MPI I/O: MPI_File_open with the parsed amode; MPI_File_set_size (0) exactly when the open succeeded and amode is
+   SC_IO_WRITE_CREATE; MPI_File_close exactly when that truncation's class is not SUCCESS (repair of F-C12h; its result is dropped);
+   the class returned; the handle left behind (MPI_FILE_NULL after that close) *)
+Theorem C12_gen_open_B : forall ecl amode comm fname info fileptr fh o_ret ec_ret s_ret ec2_ret c_ret,
   valid_amode amode -> (nz fh = (o_ret =? 0)) ->
   let '(pm_called, pm_arg0, mo_called, mo_comm, mo_name, mo_amode, mo_info, ec_called, ec_arg0, ss_called, ss_file, ss_size,
-        ec2_called, ec2_arg0, ok, hdl, ret) :=
+        ec2_called, ec2_arg0, mc_called, ok, hdl, ret) :=
     sc_io_open_B comm fname amode info fileptr (snd (sc_io_parse_access_mode_B amode 0)) fh o_ret (ecl o_ret) ec_ret s_ret
-                 (ecl s_ret) ec2_ret in
-  MpiioModel.obs (open_prog_B ecl amode kfinB) [[o_ret]; [s_ret]]
-  = ((if mo_called =? 1 then [Coll K_MOPEN 0 [mo_amode]] else []) ++ (if ss_called =? 1 then [Coll K_MSETSIZE 0 [ss_size]] else []),
+                 (ecl s_ret) ec2_ret 0 in
+  MpiioModel.obs (open_prog_B ecl amode kfinB) [[o_ret]; [s_ret]; [c_ret]]
+  = ((if mo_called =? 1 then [Coll K_MOPEN 0 [mo_amode]] else []) ++ (if ss_called =? 1 then [Coll K_MSETSIZE 0 [ss_size]] else [])
+       ++ (if mc_called =? 1 then [Coll K_MCLOSE 0 []] else []),
      Some [ret; b2z (nz hdl)])
   /\ pm_called = 1 /\ pm_arg0 = amode /\ mo_comm = comm /\ mo_name = fname /\ mo_info = info /\ ec_called = 1 /\ ec_arg0 = o_ret
-  /\ (ss_called = 1 -> ss_file = fh /\ ec2_called = 1 /\ ec2_arg0 = s_ret) /\ hdl = fh
+  /\ (ss_called = 1 -> ss_file = fh /\ ec2_called = 1 /\ ec2_arg0 = s_ret /\ ret = ecl s_ret)
+  /\ (mc_called = 1 <-> ss_called = 1 /\ ecl s_ret <> 0) /\ hdl = (if mc_called =? 1 then 0 else fh)
   /\ (ok = 1 <-> ec_ret = 0 /\ (ss_called = 1 -> ec2_ret = 0)).
 Proof. exact gen_open_B. Qed.
 Print Assumptions C12_gen_open_B.
@@ -536,6 +540,70 @@ Theorem C12_gen_write_at_all_B : forall ecl f off p count t ocp st mret gc_st gc
 Proof. exact gen_write_at_all_B. Qed.
 Print Assumptions C12_gen_write_at_all_B.
 
+(* sc_io_read_at / sc_io_write_at without MPI I/O (A and C): `obs (at_prog ..)` on the replies of ftell / fseek / fread or fwrite /
+   restoring fseek = the generated function: which of the four stdio calls happen (early returns on ftell = -1, fseek <> 0,
+   errno <> 0 && ocount = 0), their arguments (offset, SEEK_SET, type size, count, the position ftell returned), ocount, and the
+   returned class incl. the tail of repair 3510a9a (class of the transfer's errno unless that is SUCCESS) *)
+Theorem C12_gen_read_at_C : forall me f off p count t ocp file ft_errno ft_ret e1 fs_errno fs_ret e2 tsize ts_ret xf_errno xf_ret e3
+                             fs2_errno fs2_ret e4 rd,
+  0 <= count < 2147483648 -> 0 <= xf_ret <= count -> 0 <= tsize < 2147483648 ->
+  let '(ft_called, ft_file, ec1_called, ec1_arg, fs_called, fs_file, fs_a1, fs_a2, ec2_called, ec2_arg, ts_called, ts_t,
+        xf_called, xf_buf, xf_a1, xf_a2, xf_file, ec3_called, ec3_arg, fs2_called, fs2_file, fs2_a1, fs2_a2, ec4_called, ec4_arg,
+        ok, ocd, ret) :=
+    sc_io_read_at_C f off p count t ocp me file ft_errno ft_ret (errclass CfgC ft_errno) e1 fs_errno fs_ret (errclass CfgC fs_errno) e2
+                    tsize ts_ret xf_errno xf_ret (errclass CfgC xf_errno) e3 fs2_errno fs2_ret (errclass CfgC fs2_errno) e4 in
+  MpiioModel.obs (at_prog CfgC false me off tsize count [] k3)
+      [[ft_ret; ft_errno]; [fs_ret; fs_errno]; xf_ret :: xf_errno :: rd; [fs2_ret; fs2_errno]]
+  = at_view ft_called fs_called fs_a1 fs_a2 xf_called xf_a1 xf_a2 fs2_called fs2_a1 fs2_a2 false [] rd ret ocd
+  /\ (xf_called = 1 -> xf_buf = p /\ xf_file = file /\ ts_t = t) /\ (fs2_called = 1 -> fs2_a1 = ft_ret).
+Proof. exact gen_read_at_C. Qed.
+Print Assumptions C12_gen_read_at_C.
+
+Theorem C12_gen_read_at_A : forall me f off p count t ocp file ft_errno ft_ret e1 fs_errno fs_ret e2 tsize ts_ret xf_errno xf_ret e3
+                             fs2_errno fs2_ret e4 rd,
+  0 <= count < 2147483648 -> 0 <= xf_ret <= count -> 0 <= tsize < 2147483648 ->
+  let '(ft_called, ft_file, ec1_called, ec1_arg, fs_called, fs_file, fs_a1, fs_a2, ec2_called, ec2_arg, ts_called, ts_t,
+        xf_called, xf_buf, xf_a1, xf_a2, xf_file, ec3_called, ec3_arg, fs2_called, fs2_file, fs2_a1, fs2_a2, ec4_called, ec4_arg,
+        ok, ocd, ret) :=
+    sc_io_read_at_A f off p count t ocp me file ft_errno ft_ret (errclass CfgA ft_errno) e1 fs_errno fs_ret (errclass CfgA fs_errno) e2
+                    tsize ts_ret xf_errno xf_ret (errclass CfgA xf_errno) e3 fs2_errno fs2_ret (errclass CfgA fs2_errno) e4 in
+  MpiioModel.obs (at_prog CfgA false me off tsize count [] k3)
+      [[ft_ret; ft_errno]; [fs_ret; fs_errno]; xf_ret :: xf_errno :: rd; [fs2_ret; fs2_errno]]
+  = at_view ft_called fs_called fs_a1 fs_a2 xf_called xf_a1 xf_a2 fs2_called fs2_a1 fs2_a2 false [] rd ret ocd
+  /\ (xf_called = 1 -> xf_buf = p /\ xf_file = file /\ ts_t = t) /\ (fs2_called = 1 -> fs2_a1 = ft_ret).
+Proof. exact gen_read_at_A. Qed.
+Print Assumptions C12_gen_read_at_A.
+
+Theorem C12_gen_write_at_C : forall me f off p count t ocp file ft_errno ft_ret e1 fs_errno fs_ret e2 tsize ts_ret xf_errno xf_ret e3
+                             fs2_errno fs2_ret e4 data,
+  0 <= count < 2147483648 -> 0 <= xf_ret <= count -> 0 <= tsize < 2147483648 ->
+  let '(ft_called, ft_file, ec1_called, ec1_arg, fs_called, fs_file, fs_a1, fs_a2, ec2_called, ec2_arg, ts_called, ts_t,
+        xf_called, xf_buf, xf_a1, xf_a2, xf_file, ec3_called, ec3_arg, fs2_called, fs2_file, fs2_a1, fs2_a2, ec4_called, ec4_arg,
+        ok, ocd, ret) :=
+    sc_io_write_at_C f off p count t ocp me file ft_errno ft_ret (errclass CfgC ft_errno) e1 fs_errno fs_ret (errclass CfgC fs_errno) e2
+                    tsize ts_ret xf_errno xf_ret (errclass CfgC xf_errno) e3 fs2_errno fs2_ret (errclass CfgC fs2_errno) e4 in
+  MpiioModel.obs (at_prog CfgC true me off tsize count data k3)
+      [[ft_ret; ft_errno]; [fs_ret; fs_errno]; [xf_ret; xf_errno]; [fs2_ret; fs2_errno]]
+  = at_view ft_called fs_called fs_a1 fs_a2 xf_called xf_a1 xf_a2 fs2_called fs2_a1 fs2_a2 true data [] ret ocd
+  /\ (xf_called = 1 -> xf_buf = p /\ xf_file = file /\ ts_t = t) /\ (fs2_called = 1 -> fs2_a1 = ft_ret).
+Proof. exact gen_write_at_C. Qed.
+Print Assumptions C12_gen_write_at_C.
+
+Theorem C12_gen_write_at_A : forall me f off p count t ocp file ft_errno ft_ret e1 fs_errno fs_ret e2 tsize ts_ret xf_errno xf_ret e3
+                             fs2_errno fs2_ret e4 data,
+  0 <= count < 2147483648 -> 0 <= xf_ret <= count -> 0 <= tsize < 2147483648 ->
+  let '(ft_called, ft_file, ec1_called, ec1_arg, fs_called, fs_file, fs_a1, fs_a2, ec2_called, ec2_arg, ts_called, ts_t,
+        xf_called, xf_buf, xf_a1, xf_a2, xf_file, ec3_called, ec3_arg, fs2_called, fs2_file, fs2_a1, fs2_a2, ec4_called, ec4_arg,
+        ok, ocd, ret) :=
+    sc_io_write_at_A f off p count t ocp me file ft_errno ft_ret (errclass CfgA ft_errno) e1 fs_errno fs_ret (errclass CfgA fs_errno) e2
+                    tsize ts_ret xf_errno xf_ret (errclass CfgA xf_errno) e3 fs2_errno fs2_ret (errclass CfgA fs2_errno) e4 in
+  MpiioModel.obs (at_prog CfgA true me off tsize count data k3)
+      [[ft_ret; ft_errno]; [fs_ret; fs_errno]; [xf_ret; xf_errno]; [fs2_ret; fs2_errno]]
+  = at_view ft_called fs_called fs_a1 fs_a2 xf_called xf_a1 xf_a2 fs2_called fs2_a1 fs2_a2 true data [] ret ocd
+  /\ (xf_called = 1 -> xf_buf = p /\ xf_file = file /\ ts_t = t) /\ (fs2_called = 1 -> fs2_a1 = ft_ret).
+Proof. exact gen_write_at_A. Qed.
+Print Assumptions C12_gen_write_at_A.
+
 (* ================================================================== configuration B: the wrapper on an abstract MPI I/O semantics *)
 (* (coq/C12/MpiioModel.v, MpiioProofs.v)  The MPI I/O library is a CONTRACT: `m_open / m_set_size / m_close / m_write_at /
    m_read_at` = one file (a byte array), one amode per open, error codes injected by the plan (rank, call kind 20..28, call number);
@@ -552,9 +620,11 @@ Theorem C12_B_get_count_undefined_refuted : get_count 10 4 < 0 /\ read_count 10 
 Proof. exact get_count_undefined_witness. Qed.
 Print Assumptions C12_B_get_count_undefined_refuted.
 
-(* sc_io_open with MPI I/O under every plan of injected error codes: one class for all ranks; SUCCESS iff no MPI I/O call
-   failed; then every rank holds a handle with the parsed amode; a failed open leaves no handle behind PROVIDED the failing
-   call is not MPI_File_set_size (guard; the unguarded statement is refuted next: F-C12h) *)
+(* sc_io_open with MPI I/O under EVERY plan of injected error codes: one class for all ranks; SUCCESS iff no MPI I/O call
+   failed; then every rank holds a handle with the parsed amode; a failed open leaves NO handle behind and nothing open - also
+   when the failing call is the MPI_File_set_size of SC_IO_WRITE_CREATE (the handle is closed again) and also when that
+   MPI_File_close fails too; the class is the one of MPI_File_open, resp. of MPI_File_set_size when the open succeeded with
+   SC_IO_WRITE_CREATE (never the one of the inner close) *)
 Theorem C12_B_open ecl P g am g' cls : (forall e, ecl e = SUCC <-> e = SUCC) ->
   valid_amode am -> plan_ok (w_plan (b_w g)) ->
   gB_open ecl P g am = (g', cls) ->
@@ -562,16 +632,19 @@ Theorem C12_B_open ecl P g am g' cls : (forall e, ecl e = SUCC <-> e = SUCC) ->
   /\ (x = SUCC <-> w_fail (b_w g') = w_fail (b_w g))
   /\ b_ok g' = (x =? SUCC)
   /\ (x = SUCC -> b_bits g' = Some (amode_bits am) /\ w_open (b_w g') = w_open (b_w g) + P)
-  /\ (x <> SUCC -> w_plan (b_w g) 0 K_MSETSIZE (w_cnt (b_w g) 0 K_MSETSIZE) = None ->
-      b_bits g' = None /\ w_open (b_w g') = w_open (b_w g)).
+  /\ (x <> SUCC -> b_bits g' = None /\ w_open (b_w g') = w_open (b_w g))
+  /\ (forall w1 e, m_open (b_w g) P (amode_bits am) = (w1, e) ->
+      x = if (e =? SUCC) && (am =? c12_SC_IO_WRITE_CREATE) then ecl (snd (m_set_size w1 (amode_bits am) 0)) else ecl e).
 Proof. intros H. exact (B_open ecl H P g am g' cls). Qed.
 Print Assumptions C12_B_open.
 
-Theorem C12_B_open_setsize_refuted :
-  let '(g', cls) := gB_open errclassB 2 (gstB0 (File [7; 8; 9]) (planB 0 K_MSETSIZE 0 32)) c12_SC_IO_WRITE_CREATE in
-  cls = [32; 32] /\ b_ok g' = false /\ b_bits g' <> None /\ w_open (b_w g') = 2 /\ w_fail (b_w g') = 1.
-Proof. exact B_open_setsize_witness. Qed.
-Print Assumptions C12_B_open_setsize_refuted.
+(* regression guard for F-C12h (repaired): the code before the repair (`gB_open_with false`, no MPI_File_close after a failed
+   MPI_File_set_size) on P = 1: class IO, but the handle stays open *)
+Theorem C12_B_open_setsize_old_refuted :
+  let '(g', cls) := gB_open_with errclassB false 1 (gstB0 (File [7; 8; 9]) (planB 0 K_MSETSIZE 0 32)) c12_SC_IO_WRITE_CREATE in
+  cls = [32] /\ b_ok g' = false /\ b_bits g' <> None /\ w_open (b_w g') = 1 /\ w_fail (b_w g') = 1.
+Proof. exact B_open_setsize_old_witness. Qed.
+Print Assumptions C12_B_open_setsize_old_refuted.
 
 Theorem C12_B_close ecl P g g' cls : (forall e, ecl e = SUCC <-> e = SUCC) ->
   plan_ok (w_plan (b_w g)) -> gB_close ecl P g = (g', cls) ->
@@ -673,7 +746,17 @@ Example C12_ex_session_B :
   w_node (b_w g) = File [1; 2; 3; 4; 5; 6; 7; 8; 9; 10] /\ w_open (b_w g) = 0 /\ w_fail (b_w g) = 0
   /\ nth 5 outs [] = [[0; 1; 0; 4; 1; 2; 3; 4]; [0; 1; 0; 4; 5; 6; 7; 8]; [0; 1; 0; 4; 5; 6; 7; 8]].
 Proof. exact ex_session_B. Qed.
+(* the current code on the witness of the old one, and with a failing MPI_File_close on top *)
+Example C12_ex_B_open_setsize_now :
+  (let '(g', cls) := gB_open errclassB 1 (gstB0 (File [7; 8; 9]) (planB 0 K_MSETSIZE 0 32)) c12_SC_IO_WRITE_CREATE in
+   cls = [32] /\ b_ok g' = false /\ b_bits g' = None /\ w_open (b_w g') = 0 /\ w_fail (b_w g') = 1)
+  /\ (let pl := fun q f k => if (f =? K_MSETSIZE) then Some (32, 0) else if (f =? K_MCLOSE) then Some (36, 0) else None in
+      let '(g', cls) := gB_open errclassB 2 (gstB0 (File [7; 8; 9]) pl) c12_SC_IO_WRITE_CREATE in
+      cls = [32; 32] /\ b_bits g' = None /\ w_open (b_w g') = 0 /\ w_fail (b_w g') = 2).
+Proof. exact B_open_setsize_now_witness. Qed.
 Example C12_ex_gen_open_B_create :
-  fst (MpiioModel.obs (open_prog_B errclassB c12_SC_IO_WRITE_CREATE kfinB) [[0]; [0]]) = [Coll K_MOPEN 0 [5]; Coll K_MSETSIZE 0 [0]]
-  /\ fst (MpiioModel.obs (open_prog_B errclassB c12_SC_IO_WRITE_APPEND kfinB) [[0]; [0]]) = [Coll K_MOPEN 0 [132]].
-Proof. split; reflexivity. Qed.
+  fst (MpiioModel.obs (open_prog_B errclassB c12_SC_IO_WRITE_CREATE kfinB) [[0]; [0]; [0]]) = [Coll K_MOPEN 0 [5]; Coll K_MSETSIZE 0 [0]]
+  /\ fst (MpiioModel.obs (open_prog_B errclassB c12_SC_IO_WRITE_APPEND kfinB) [[0]; [0]]) = [Coll K_MOPEN 0 [132]]
+  /\ MpiioModel.obs (open_prog_B errclassB c12_SC_IO_WRITE_CREATE kfinB) [[0]; [32]; [36]]
+     = ([Coll K_MOPEN 0 [5]; Coll K_MSETSIZE 0 [0]; Coll K_MCLOSE 0 []], Some [32; 0]).
+Proof. repeat split; reflexivity. Qed.
